@@ -439,9 +439,11 @@ class ImplTrace:
                 self.expired[si].append(ev[2])
 
 
-def model_script(sc, tr):
+def model_script(sc, tr, oracle_override=None):
     """Lean driver script from the scenario + the oracle values observed on the implementation.
-    Returns (lines, opmap) with opmap[j] = scenario step index of the j-th model operation."""
+    Returns (lines, opmap) with opmap[j] = scenario step index of the j-th model operation.
+    oracle_override: {scenario step: send-result string} (see run_scenario)."""
+    oracle_override = oracle_override or {}
     cfgv = C.config_values(sc.variant)
     lines = ["cfg localOnly=%d auth=%d maxMatchers=%s initFetch=%s defaultNs=%d name=%s version=%s" % (
         1 if cfgv.get("CONFIG_ALLOW_ADD_ONLY_FROM_LOCALHOST", "false") == "true" else 0,
@@ -459,7 +461,7 @@ def model_script(sc, tr):
     for si, st in enumerate(sc.steps):
         k = st[0]
         jsends = [s for s in tr.sends[si] if s[2] == "json"]
-        sends = "".join("1" if s[1] else "0" for s in jsends) or "-"
+        sends = oracle_override.get(si) or "".join("1" if s[1] else "0" for s in jsends) or "-"
         reasons = b" ".join(s[3] for s in jsends)
         ixf = 1 if b"element table full" in reasons else 0
         rtf = 1 if b"routing table full" in reasons else 0
@@ -728,5 +730,23 @@ def run_scenario(binary, sc, rng=None, args=(), strict_errors=False):
     mlines, opmap = model_script(sc, itr)
     ops, _ = run_model(mlines)
     mtr = ModelTrace(sc, ops, opmap)
+    # The send results are consumed in the model's send order.  Inside a teardown / expiry step the daemon answers in table
+    # slot order, the model in insertion order: when a send failed in such a step, hand every target its own results in the
+    # order the model addresses the targets (which does not depend on the results: C11 notify_results_ignored) and run again.
+    override = {}
+    for si in range(len(sc.steps)):
+        js = [x for x in itr.sends[si] if x[2] == "json"]
+        if all(x[1] for x in js) or not mtr.sends[si]:
+            continue
+        it, mt = [x[0] for x in js], [x[0] for x in mtr.sends[si]]
+        if it != mt and sorted(it) == sorted(mt):
+            queues = {}
+            for x in js:
+                queues.setdefault(x[0], []).append(x[1])
+            override[si] = "".join("1" if queues[c].pop(0) else "0" for c in mt)
+    if override:
+        mlines, opmap = model_script(sc, itr, override)
+        ops, _ = run_model(mlines)
+        mtr = ModelTrace(sc, ops, opmap)
     dis = compare(sc, itr, mtr, strict_errors) + compare_images(sc, itr, mtr)
     return {"res": res, "log": log, "itr": itr, "mtr": mtr, "dis": dis, "script": lines, "model_script": mlines, "smap": smap}
